@@ -441,7 +441,7 @@ def run(ctx):
         raise MachineryError('binding self-test (read traces) failed: %s' % rej)
     ctx.stage('binding-selftest', ok=True)
     ctx.cov['rule'] = ('content lengths 0..200 x chunk sizes {1,2,7,64,1000} (model) plus sizes around every multiple of 4096 / 65536 / '
-                       '1 MiB, five hash algorithms, the read loop observed through open(); last_bytes for sizes x n in '
+                       '1 MiB, five hash algorithms, the read loop observed through open(); 192 digests from four threads at once; last_bytes for sizes x n in '
                        '{0,1,size-1,size,size+1,huge}; every edge of the 7-state file-system graph to depth 3 on a real directory '
                        'with the call repeated; every errno of errno.errorcode injected into makedirs / remove')
     shutil.rmtree(root, ignore_errors=True)
